@@ -20,3 +20,4 @@ PROP = dict(
           rc('C01_parallel_internal', 'harness/C01_parallel.cpp', 'internal-asan', flags=FL),
           rc('C01_parallel_debug', 'harness/C01_parallel.cpp', 'debug-asan', flags=FL)],
 )
+PROP['rule'] += ' Round-3 extension: on TBB and the serial backend, optionally the SAME loop (same body object, same thread) is first run with a body that throws and the exception is handled by the caller; the checked loop that follows must be unaffected.'
